@@ -958,6 +958,11 @@ fn dump_crate<'tcx>(tcx: TyCtxt<'tcx>, name: &str) -> J {
                 if of_trait {
                     let tr = tcx.impl_trait_ref(did).instantiate_identity().skip_norm_wip();
                     v.push(("trait", J::Str(tcx.def_path_str(tr.def_id))));
+                    // the trait's own type arguments (`impl Page<Strict> for X`): several impls of one generic trait for one type
+                    v.push((
+                        "trait_args",
+                        J::Arr(tr.args.iter().skip(1).filter_map(|a| a.as_type().map(|t| cx.ty(t))).collect()),
+                    ));
                 } else {
                     v.push(("trait", J::Null));
                 }
